@@ -100,6 +100,22 @@ def cases(rng, tier, X):
                     ops.append('poison %d' % rng.choice([0, 0xA5, int(OWN[0:2], 16)]))
                     ops.append('ev 0 %s avail=%d tbl=0' % (f, len(f) // 2 + extra))
     out.append(('declared', ops))
+    # HISTORIES of one session: an acknowledging Discover, then the same mapper's next Discovers announcing FEWER stations while
+    # the buffer still holds the old list behind the announced one (a re-used transmit buffer, a trailer) - whatever the
+    # classifier remembered about the session from the earlier frame, only the announced entries count
+    for hk, (n, p) in enumerate([(3, 2), (3, 1), (12, 11), (12, 5), (40, 39), (200, 150)]):
+        ops = base + ['tbl add 0 %s 7 100' % MAPPERS[0], 'tbl add 0 %s 8 200' % MAPPERS[1]]
+        st = [rng.choice(NEAR) for _ in range(n)]
+        st[p] = OWN
+        for mapper, gen in ((MAPPERS[0], 7), (MAPPERS[1], 8)):
+            ops.append('ev 0 %s avail=1500 tbl=0' % discover(rng, mapper, gen, 100, st))
+            for declared in sorted({1, p, max(p - 1, 1), p + 1, n, 0}):
+                for xid in (100, 101):
+                    f = discover(rng, mapper, gen, xid, st, declared=declared)
+                    ops.append('ev 0 %s avail=%d tbl=0' % (f, rng.choice([len(f) // 2, 1500])))
+            ops.append('ev 0 %s avail=1500 tbl=0' % discover(rng, mapper, gen, 102, [NEAR[0]] * n))
+            ops.append('ev 0 %s avail=1500 tbl=0' % discover(rng, mapper, gen, 103, st, declared=1))
+        out.append(('hist%d' % hk, ops))
     # all opcodes, resets, hello, truncation
     ops = base + tblops
     for op in range(256):
@@ -124,6 +140,10 @@ def cases(rng, tier, X):
             f = discover(rng, rng.choice(MAPPERS), rng.choice([7, 8]), rng.choice([100, 200, 300]), st,
                          declared=rng.choice([None, None, None, nst + 1, 0xffff, 0]), eth=rng.choice([None, None, rng.choice(MAPPERS), '0200000000bb']))
             ops.append('ev 0 %s avail=%d tbl=%s' % (f, len(f) // 2 + rng.choice([0, 0, 3, 6, 700]), rng.choice(['0', '0', '0', '-'])))
+            if nst > 1 and rng.random() < 0.3:
+                # the next Discover of that mapper: the same bytes, fewer (or more) stations announced
+                g = f[:68] + '%04x' % rng.randrange(0, nst + 2) + f[72:]
+                ops.append('ev 0 %s avail=%d tbl=0' % (g, len(g) // 2))
         out.append(('rand%d' % k, ops))
     # universal automata schedule (all public calls, missing objects, near-colliding keys, bridged frames, every deadline): this check's predicate on it
     # one kind of call repeated hundreds of times (run lengths, counters, thresholds), then the consequences
